@@ -365,7 +365,7 @@ class ControlParser(ArgumentParser):
                 flag = f"-{letter.upper()}"
                 self._flags.add(letter.upper())
             name_or_flags = [long] if flag is None else [flag, long]
-            if parameter.annotation is bool:
+            if _resolve_annotation(parameter.annotation) is bool:
                 # If we are dealing with a boolean parameter, always use the
                 # 'store_true' action. Even if the parameter's default value is
                 # `True`, this will make the parser argument's default `False`.
@@ -447,6 +447,37 @@ def _get_arg_type_wrapper(cls: Type[Any]) -> Callable[[Any], Any]:
     return wrapper
 
 
+_BUILTIN_ANNOTATIONS = {"bool": bool, "int": int, "float": float, "str": str}
+_DOTTED_PATH_ANNOTATIONS = ("AnyCoroutineFunc", "EndCB", "CancelCB")
+_LITERAL_EVAL_ANNOTATIONS = ("ArgsT", "KwArgsT", "_P.args", "_P.kwargs")
+
+
+def _resolve_annotation(annotation: Any) -> Any:
+    """
+    Resolves a postponed (i.e. string) annotation to a usable type.
+
+    With `from __future__ import annotations` the annotations found in a
+    signature are plain strings. Only the kinds of annotations used by the
+    task pool classes are recognized; `None` is dropped from unions and
+    anything unknown falls back to `str`, i.e. is passed through unchanged.
+    Annotations that are not strings are returned as they are.
+    """
+    if not isinstance(annotation, str):
+        return annotation
+    parts = [p.strip() for p in annotation.split("|") if p.strip() != "None"]
+    text = parts[0] if len(parts) == 1 else annotation
+    if text in _BUILTIN_ANNOTATIONS:
+        return _BUILTIN_ANNOTATIONS[text]
+    if text.startswith("Callable") or text in _DOTTED_PATH_ANNOTATIONS:
+        return AnyCoroutineFunc
+    if (
+        text.startswith(("Iterable", "Mapping"))
+        or text in _LITERAL_EVAL_ANNOTATIONS
+    ):
+        return ArgsT
+    return str
+
+
 def _get_type_from_annotation(annotation: Any) -> Callable[[Any], Any]:
     """
     Returns a type conversion function based on the `annotation` passed.
@@ -459,6 +490,7 @@ def _get_type_from_annotation(annotation: Any) -> Callable[[Any], Any]:
     `Iterable`- or args/kwargs-type annotations use `ast.literal_eval`.
     Others pass unchanged (but still wrapped with `_get_arg_type_wrapper`).
     """
+    annotation = _resolve_annotation(annotation)
     if any(annotation is t for t in (AnyCoroutineFunc, EndCB, CancelCB)):
         annotation = resolve_dotted_path
     if any(
